@@ -659,6 +659,9 @@ func c07Enum(g *Gen, emit func(kind, src string), riskyOnly bool) {
 
 // c07Tool: `harness C07 -tool <src-hex>…` prints the case line (idx 0) of a source text.
 func c07Tool(args []string) int {
+	if len(args) > 1 && args[0] == "gen" {
+		return c07GenTool(args[1])
+	}
 	if len(args) > 0 && args[0] == "lexprobe" {
 		// lex every hex source line of stdin; "B i" before, "E i" after (flushed): the parent learns on which one we died
 		sc := bufio.NewScanner(os.Stdin)
